@@ -2,9 +2,12 @@
 //! Usage: hpxmc <ID> --tier quick|thorough [--config NAME] [--verif-dir DIR] [--replay FILE]
 
 mod alpha;
+mod bm;
 mod c01;
 mod c03;
 mod c04;
+mod c07;
+mod c15;
 mod c17;
 mod c18;
 mod refm;
@@ -65,6 +68,9 @@ fn main() {
         "C02" => c01::replay(case, true),
         "C03" => c03::replay(case),
         "C04" => c04::replay(case, &api),
+        "C07" => c07::replay(case, c07::Mode::Moc),
+        "C08" => c07::replay(case, c07::Mode::Bmoc),
+        "C15" => c15::replay(case),
         "C17" => c17::replay(case),
         "C18" => c18::replay(case),
         _ => { eprintln!("no replay for {}", id); std::process::exit(2); }
@@ -93,6 +99,9 @@ fn main() {
     "C02" => c01::run(&ctx, true),
     "C03" => c03::run(&ctx),
     "C04" => c04::run(&ctx),
+    "C07" => c07::run(&ctx, c07::Mode::Moc),
+    "C08" => c07::run(&ctx, c07::Mode::Bmoc),
+    "C15" => c15::run(&ctx),
     "C17" => c17::run(&ctx),
     "C18" => c18::run(&ctx),
     _ => { eprintln!("unknown property {}", id); 2 }
